@@ -40,12 +40,58 @@ type skWalker struct {
 	held     []string // currently held (lexically)
 	closures map[string]*skFn
 	extra    *[]*skFn
+	locals   map[types.Object]string // nsrc: local variable -> %k
 }
 
 func (w *skWalker) src(n ast.Node) string {
 	var b bytes.Buffer
 	printer.Fprint(&b, w.p.Fset, n)
 	return strings.Join(strings.Fields(b.String()), " ")
+}
+
+// nsrc: the source text of a condition / returned value with the function's LOCAL variables (receiver,
+// parameters, locals) replaced by %1, %2, … in the order in which the function's conditions first mention
+// them: renaming a local variable is invisible to the skeleton, everything else (fields, methods,
+// package-level names, operators, literals) is kept verbatim.
+func (w *skWalker) nsrc(n ast.Node) string {
+	if w.locals == nil {
+		w.locals = map[types.Object]string{}
+	}
+	type saved struct {
+		id   *ast.Ident
+		name string
+	}
+	var undo []saved
+	ast.Inspect(n, func(x ast.Node) bool {
+		if _, isLit := x.(*ast.FuncLit); isLit {
+			return true
+		}
+		id, ok := x.(*ast.Ident)
+		if !ok {
+			return true
+		}
+		obj := w.p.TypesInfo.Uses[id]
+		if obj == nil {
+			obj = w.p.TypesInfo.Defs[id]
+		}
+		v, ok := obj.(*types.Var)
+		if !ok || v.IsField() || v.Pkg() == nil || v.Parent() == nil || v.Parent() == v.Pkg().Scope() {
+			return true
+		}
+		nm, seen := w.locals[obj]
+		if !seen {
+			nm = fmt.Sprintf("%%%d", len(w.locals)+1)
+			w.locals[obj] = nm
+		}
+		undo = append(undo, saved{id, id.Name})
+		id.Name = nm
+		return true
+	})
+	out := w.src(n)
+	for _, u := range undo {
+		u.id.Name = u.name
+	}
+	return out
 }
 
 func (w *skWalker) emit(kind, a string, b ...string) {
@@ -204,13 +250,13 @@ func (w *skWalker) stmt(s ast.Stmt) {
 		}
 		var rs []string
 		for _, r := range x.Results {
-			rs = append(rs, w.src(r))
+			rs = append(rs, w.nsrc(r))
 		}
 		w.emit("ret", strings.Join(rs, ", "))
 	case *ast.IfStmt:
 		w.stmt(x.Init)
 		w.expr(x.Cond)
-		w.emit("ifBegin", w.src(x.Cond))
+		w.emit("ifBegin", w.nsrc(x.Cond))
 		saved := append([]string(nil), w.held...)
 		w.stmts(x.Body.List)
 		w.held = saved
@@ -224,7 +270,7 @@ func (w *skWalker) stmt(s ast.Stmt) {
 		w.stmt(x.Init)
 		c := ""
 		if x.Cond != nil {
-			c = w.src(x.Cond)
+			c = w.nsrc(x.Cond)
 		}
 		w.emit("loopBegin", c)
 		if x.Cond != nil {
@@ -235,7 +281,7 @@ func (w *skWalker) stmt(s ast.Stmt) {
 		w.emit("loopEnd", "")
 	case *ast.RangeStmt:
 		w.expr(x.X)
-		w.emit("loopBegin", "range "+w.src(x.X))
+		w.emit("loopBegin", "range "+w.nsrc(x.X))
 		w.stmts(x.Body.List)
 		w.emit("loopEnd", "")
 	case *ast.SwitchStmt:
